@@ -2410,6 +2410,15 @@ def _fn_ast(  # pylint: disable=too-many-locals,too-many-statements
         )
 
 
+def _host_target_ast(form: ISeq, ctx: AnalyzerContext) -> Node:
+    """Analyze the target of a host interop form.
+
+    The value of the target is always needed, even if the interop form itself is in a
+    statement position."""
+    with ctx.expr_pos():
+        return _analyze_form(runtime.nth(form, 1), ctx)
+
+
 def _host_call_ast(form: ISeq, ctx: AnalyzerContext) -> HostCall:
     assert isinstance(form.first, sym.Symbol)
 
@@ -2422,11 +2431,12 @@ def _host_call_ast(form: ISeq, ctx: AnalyzerContext) -> HostCall:
             "host interop calls must be 2 or more elements long", form=form
         )
 
+    target = _host_target_ast(form, ctx)
     args, kwargs = _call_args_ast(runtime.nthrest(form, 2), ctx)
     return HostCall(
         form=form,
         method=method.name[1:],
-        target=_analyze_form(runtime.nth(form, 1), ctx),
+        target=target,
         args=args,
         kwargs=kwargs,
         env=ctx.get_node_env(pos=ctx.syntax_position),
@@ -2465,7 +2475,7 @@ def _host_prop_ast(form: ISeq, ctx: AnalyzerContext) -> HostField:
         return HostField(
             form=form,
             field=field.name,
-            target=_analyze_form(runtime.nth(form, 1), ctx),
+            target=_host_target_ast(form, ctx),
             is_assignable=True,
             env=ctx.get_node_env(pos=ctx.syntax_position),
         )
@@ -2479,7 +2489,7 @@ def _host_prop_ast(form: ISeq, ctx: AnalyzerContext) -> HostField:
         return HostField(
             form=form,
             field=field.name[2:],
-            target=_analyze_form(runtime.nth(form, 1), ctx),
+            target=_host_target_ast(form, ctx),
             is_assignable=True,
             env=ctx.get_node_env(pos=ctx.syntax_position),
         )
@@ -2505,16 +2515,17 @@ def _host_interop_ast(form: ISeq, ctx: AnalyzerContext) -> HostCall | HostField:
             return HostField(
                 form=form,
                 field=maybe_m_or_f.name[1:],
-                target=_analyze_form(runtime.nth(form, 1), ctx),
+                target=_host_target_ast(form, ctx),
                 is_assignable=True,
                 env=ctx.get_node_env(pos=ctx.syntax_position),
             )
         else:
+            target = _host_target_ast(form, ctx)
             args, kwargs = _call_args_ast(runtime.nthrest(form, 3), ctx)
             return HostCall(
                 form=form,
                 method=maybe_m_or_f.name,
-                target=_analyze_form(runtime.nth(form, 1), ctx),
+                target=target,
                 args=args,
                 kwargs=kwargs,
                 env=ctx.get_node_env(pos=ctx.syntax_position),
@@ -2527,11 +2538,12 @@ def _host_interop_ast(form: ISeq, ctx: AnalyzerContext) -> HostCall | HostField:
                 "host call method must be a symbol", form=method
             )
 
+        target = _host_target_ast(form, ctx)
         args, kwargs = _call_args_ast(maybe_m_or_f.rest, ctx)
         return HostCall(
             form=form,
             method=method.name.removeprefix("-"),
-            target=_analyze_form(runtime.nth(form, 1), ctx),
+            target=target,
             args=args,
             kwargs=kwargs,
             env=ctx.get_node_env(pos=ctx.syntax_position),
